@@ -206,6 +206,18 @@ pub fn is_listening(port: u16) -> bool {
         .unwrap_or(false)
 }
 
+/// TCP state (as in /proc/net/tcp: 1 = ESTABLISHED, 4/5 = FIN_WAIT, 6 = TIME_WAIT, ...) of the *server's* end of the
+/// loopback connection between the listener port and this client port; None = no such socket (any more)
+pub fn server_side_state(server_port: u16, client_port: u16) -> Option<u8> {
+    let local = format!("0100007F:{server_port:04X}");
+    let remote = format!("0100007F:{client_port:04X}");
+    let text = std::fs::read_to_string("/proc/net/tcp").ok()?;
+    text.lines().skip(1).find_map(|l| {
+        let f: Vec<&str> = l.split_whitespace().collect();
+        (f.len() > 3 && f[1] == local && f[2] == remote).then(|| u8::from_str_radix(f[3], 16).ok()).flatten()
+    })
+}
+
 pub fn wait_accepting(port: u16) {
     let t0 = Instant::now();
     loop {
